@@ -13,7 +13,7 @@ for d in sorted(glob.glob(os.path.join(ROOT,'seeded','C*'))):
     rows.append('| %s | %s | %s | %s | %s |'%(k,cl(m.get('summary'),230),cl(m.get('needs_to_manifest'),200),s,cl(vr.get('note'),260)))
 hdr='| seed | change | needs to manifest | verdict | note |\n|---|---|---|---|---|\n'
 total=sum(cnt.values())
-summ='%d seeded changes (three independent rounds; rounds 2 and 3 = `-r2`, `-r3`, each written to differ in kind and site from the earlier ones): '%total+', '.join('%d %s'%(v,k) for k,v in sorted(cnt.items()))+'.'
+summ='%d seeded changes (four independent rounds; rounds 2, 3 and 4 = `-r2`, `-r3`, `-r4`, each written to differ in kind and site from the earlier ones): '%total+', '.join('%d %s'%(v,k) for k,v in sorted(cnt.items()))+'.'
 open(os.path.join(ROOT,'seeded','INDEX.md'),'w').write('# Seeded breaking changes\n\n'+summ+'\n\nEach directory holds patch.diff, the author\'s demonstration (fails with the change, passes without), demo.sh and meta.json (incl. verif_result).\n\n'+hdr+'\n'.join(rows)+'\n')
 p=os.path.join(ROOT,'DESIGN.md'); s=open(p).read()
 sec='''## 11. Seeded-change campaign (which checks catch which changes)
@@ -25,8 +25,8 @@ manifest (a particular interleaving, crash point, multi-step history, boundary i
 cooperating sites), together with a demonstration that fails with the change and passes without it.
 I confirmed each one in its worktree (`tools/verify_seed.sh`: the patch equals the worktree diff,
 the demonstration fails with and passes without the change, the touched packages build) and then ran
-the property's quick check against the changed tree (`VERIF_REPO=<worktree> ./check <id>`). Three
-rounds were run for every claimed property; the authors of rounds 2 and 3 were told what the earlier
+the property's quick check against the changed tree (`VERIF_REPO=<worktree> ./check <id>`). Four
+rounds were run for every claimed property; the authors of rounds 2, 3 and 4 were told what the earlier
 rounds had changed and had to pick a different mechanism (three round-3 authors nevertheless arrived
 independently at the same change for C28, C32 and C33: a positional fast path in
 `VerifyMultiSignature` that ignores the already-matched mask). Where a check missed a change, the generator or the oracle was
@@ -62,6 +62,30 @@ partial fee unit (C05), verification results arriving after the block that conta
 genuine finding `clone-count-checked-only-on-struct-entry`). One round-3 change (C30) made the code
 under test build position tables of billions of entries: the first run was INCONCLUSIVE (time-out
 while shrinking), never a violation; a narrow-stake variant of the permutation oracle now reports it.
+
+Round 4 (authors had to avoid three earlier mechanisms per property): 28 of 44 caught at once, 15
+after strengthening, 1 not detected. The dominant theme was again *results that alias reusable
+internal state* — now recognised as a pattern and checked the same way everywhere it can occur:
+whatever a call returns is kept next to a private copy while further calls run, then compared and
+used (C25 pooled encoder sink, C29 shared selection buffer, C13 `big.Int` shared by DUP copies and
+mutated in place by ABS, C26 root cached across `UnMarshal` into a used tree, C17 address cache
+that forgets the threshold — caught, C16 pooled signer-address map — caught). The others: call
+chains deeper than one contract (C06 ancestor witnesses), alternative spellings of the same key
+(C10 upper-case hex), whitespace around an address (C22), entries larger than the whole memdb
+buffer after dead bytes (C03), a native call between a write and the failing tail (C05 evmInvoke),
+cross-contract loops on the pre-execution route judged by step/service-call counters (C12), map
+cycles under a non-smallest key with a rounds-bounded oracle (C14), optional cross-chain fields of
+consensus messages (C31), header-level queries in the 'ledger unchanged' observation (C39), the
+consensus sequence ExecuteBlock → pre-execution → SubmitBlock as a schedule point (C42), label
+collisions after ImportAccount's renaming (C38). The one change not detected (C43-r4: bloom cache
+entry not overwritten after a failed submit) needs an in-process failure of `submitBlock` between
+staging and commit followed by continued operation; no public call fails there, and when that failure
+is injected through the hook the *unchanged* ledger cannot continue either (its eagerly appended
+merkle trees make the next reopen fail), so there is no sound oracle for such histories and the
+property quantifies over fault-free chains; recorded as missed, with the experiment, rather than
+stretched into a check that would also fail on the unchanged tree. The thorough-tier sweep run
+during this round also exposed a floor that could only starve in the thorough tier (C16: a test whose
+bases are invalid by construction inherited the shared acceptance floors) — fixed.
 '''
 if '## 11. Seeded-change campaign' in s:
     s=s[:s.index('## 11. Seeded-change campaign')]+sec
